@@ -19,8 +19,9 @@ use std::sync::atomic::{AtomicU64, Ordering};
 const NAMES: [&str; 2] = ["a", "b"];
 /// second path steps
 const STEPS: [&str; 4] = ["a", "b", "k", "size"];
-/// names probed at the root (NAMES + never-defined ones)
-const PROBES: [&str; 4] = ["a", "b", "k", "zz"];
+/// names probed at the root: NAMES + never-defined ones, among them the pseudo-members `size` and `first`
+/// that the path finder answers one level down (no layer defines them, so no layer may resolve them)
+const PROBES: [&str; 6] = ["a", "b", "k", "zz", "size", "first"];
 
 #[derive(Clone, Copy, Debug, PartialEq, Eq, Hash, PartialOrd, Ord)]
 pub enum AV {
@@ -538,7 +539,7 @@ fn summarize<C: Checker<StackModel>>(checker: C) -> (u64, u64, u64, usize, Optio
 pub fn run(tier: Tier) -> i32 {
     let report = Report::new("C18", tier, "model_checking");
     let (max_layers, max_ops) = if tier.thorough() { (4, 6) } else { (3, 5) };
-    report.set_rule("explicit-state model: state = stack of pushed layers (plain / sandboxed / global, each over all 9 maps of 2 names x {absent, scalar, object}) + the builder's global map + counters + operation count; 32 actions (push plain/sandbox x 9 maps, push global, pop, assign-global x 8 incl. two value coincidences - the integer a counter holds and the text a pushed layer holds -, set-counter x 4); every transition re-executes the whole history on the real RuntimeBuilder/StackFrame/SandboxedStackFrame/GlobalFrame types and compares get/try_get of every path of length 1..2 over {a,b,k,zz} x {a,b,k,size}, roots() and get_index with the model; states = unique abstract states, transitions = successor computations (each replayed), traces_validated = replays");
+    report.set_rule("explicit-state model: state = stack of pushed layers (plain / sandboxed / global, each over all 9 maps of 2 names x {absent, scalar, object}) + the builder's global map + counters + operation count; 32 actions (push plain/sandbox x 9 maps, push global, pop, assign-global x 8 incl. two value coincidences - the integer a counter holds and the text a pushed layer holds -, set-counter x 4); every transition re-executes the whole history on the real RuntimeBuilder/StackFrame/SandboxedStackFrame/GlobalFrame types and compares get/try_get of every path of length 1..2 over {a,b,k,zz,size,first} x {a,b,k,size}, roots() and get_index with the model; states = unique abstract states, transitions = successor computations (each replayed), traces_validated = replays");
     report.assume("state identity is the abstract state; sound because every transition proves the real observations are a function of it; guarded by an un-deduplicated enumeration of all operation sequences and by running BFS and DFS and comparing unique-state counts");
     let threads = crate::run::threads();
     let mut counts = Vec::new();
@@ -602,7 +603,7 @@ pub fn run(tier: Tier) -> i32 {
         report.outcome(&model_observe(a));
     }
     report.family(FamilyStat { name: format!("un-deduplicated sequences / depth<={gdepth}"), cases: seqs, nontrivial: set.len() as u64, skipped: 0, note: format!("{seqs} operation sequences reach {} abstract states = the checker's unique-state count at the same bound", set.len()) });
-    report.sample(json!({"history": ["PushPlain([Pushed, Absent])", "PushSandbox([Absent, Obj])", "AssignGlobal(0, 1)", "Pop"], "observed": "get/try_get of a, b, k, zz and x.{a,b,k,size}; roots(); get_index(a), get_index(b)"}));
+    report.sample(json!({"history": ["PushPlain([Pushed, Absent])", "PushSandbox([Absent, Obj])", "AssignGlobal(0, 1)", "Pop"], "observed": "get/try_get of a, b, k, zz, size, first and x.{a,b,k,size}; roots(); get_index(a), get_index(b)"}));
     report.sample(json!({"model_observation_of_initial_state": model_observe(&init_abs())}));
     report.finish()
 }
